@@ -13,7 +13,7 @@ META = dict(
 def run(ctx):
     nc = ctx.pick(4, 5)
     nh = ctx.pick(4, 6)
-    path, _ = ctx.tlc_gen("data", "ByteClassGen", consts={"NC": nc, "NH": nh}, workers=8, timeout=900)
+    path, _ = ctx.tlc_gen("data", "ByteClassGen", consts={"NC": nc, "NH": nh}, workers=4, timeout=900)
     if not path:
         raise Infra("ByteClassGen wrote no vectors")
     recs = ctx.go_test(".", ["c32_"], "^TestVerifC32Vectors$", infile=path, timeout=600)
